@@ -9,19 +9,22 @@
      prog            the mutators executed so far in the subshell (history, for emission)
    Isolation:  whatever the subshell does, the parent's record is unchanged when it has finished.
    DEV ProcessWideShared: components that live in the PROCESS rather than in the Shell object (umask, resource limits)
-   are shared between parent and clone, so the subshell's change is the parent's too.                               *)
+   are shared between parent and clone, so the subshell's change is the parent's too.
+   Control flow is state too: an `exit` or `return` executed by the subshell ends the subshell only (alive stays TRUE).
+   DEV ExitPropagates (not the code's behaviour; kept as the negative self-test of ParentSurvives): the subshell's request to
+   exit / return is handed to the parent when it collects the job by job number.                                   *)
 EXTENDS Naturals, Sequences, FiniteSets, TLC
 
-CONSTANTS Components, Mutators, CompOf, Contexts, ProcessWide, DEV, MaxMut
+CONSTANTS Components, Mutators, CompOf, Contexts, ProcessWide, DEV, MaxMut, JobWaited     \* JobWaited: contexts that collect the subshell with `wait %n`
 \* CompOf: mutator -> component it changes ("none" for exit, which only ends the subshell)
 
-VARIABLES parent, child, phase, ctx, prog
-vars == <<parent, child, phase, ctx, prog>>
+VARIABLES parent, child, phase, ctx, prog, alive
+vars == <<parent, child, phase, ctx, prog, alive>>
 
-Init == /\ parent = [c \in Components |-> 0] /\ child = [c \in Components |-> 0] /\ phase = "idle" /\ ctx = "none" /\ prog = <<>>
+Init == /\ parent = [c \in Components |-> 0] /\ child = [c \in Components |-> 0] /\ phase = "idle" /\ ctx = "none" /\ prog = <<>> /\ alive = TRUE
 Fork(k) == /\ phase = "idle" /\ phase' = "in" /\ ctx' = k
            /\ child' = parent                         \* the clone starts as a copy
-           /\ UNCHANGED <<parent, prog>>
+           /\ UNCHANGED <<parent, prog, alive>>
 Shared(c) == "ProcessWideShared" \in DEV /\ c \in ProcessWide
 Mutate(m) == /\ phase = "in" /\ Len(prog) < MaxMut
              /\ (IF prog = <<>> THEN TRUE ELSE CompOf[prog[Len(prog)]] # "none")          \* nothing runs after exit
@@ -30,13 +33,16 @@ Mutate(m) == /\ phase = "in" /\ Len(prog) < MaxMut
                 IF c = "none" THEN UNCHANGED <<parent, child>>
                 ELSE /\ child' = [child EXCEPT ![c] = @ + 1]
                      /\ parent' = IF Shared(c) THEN [parent EXCEPT ![c] = @ + 1] ELSE parent
-             /\ UNCHANGED <<phase, ctx>>
+             /\ UNCHANGED <<phase, ctx, alive>>
+Ended == \E i \in 1..Len(prog) : CompOf[prog[i]] = "none"                    \* the subshell ran exit / return
 Join == /\ phase = "in" /\ prog # <<>> /\ phase' = "done" /\ UNCHANGED <<parent, child, ctx, prog>>      \* only status and output flow back
+        /\ alive' = ~("ExitPropagates" \in DEV /\ ctx \in JobWaited /\ Ended)
 Next == (\E k \in Contexts : Fork(k)) \/ (\E m \in Mutators : Mutate(m)) \/ Join
 Spec == Init /\ [][Next]_vars
 
 Changed == {c \in Components : parent[c] # 0}
 Isolation == Changed = {}                                                   \* the ideal: holds in every state
 OnlyProcessWideLeaks == Changed \subseteq ProcessWide                       \* what the clone design can guarantee
+ParentSurvives == alive                                                     \* the parent goes on after the subshell, whatever it did
 LeakNeedsMutation == \A c \in Changed : \E i \in 1..Len(prog) : CompOf[prog[i]] = c
 =============================================================================
